@@ -53,5 +53,11 @@ func LoadFileLines(f string) ([]string, error) {
 		lines = append(lines, scanner.Text())
 	}
 
+	// a line the scanner cannot hold ends the scan: report it instead of returning the lines read
+	// so far as if they were the whole file
+	if err = scanner.Err(); err != nil {
+		return []string{}, err
+	}
+
 	return lines, nil
 }
